@@ -41,7 +41,7 @@ func Run(r *vf.Run) {
 	var jobs []job
 	modes := corpus.AllModes()
 	// 1. generated packages: goto-built CFGs under all 16 mode combinations
-	nGen := r.Pick(120, 3000)
+	nGen := r.Pick(120, 1500)
 	for i := 0; i < nGen; i++ {
 		i := i
 		jobs = append(jobs, job{fmt.Sprintf("cfggen#%d", i), func(st *irwf.Stats) (int, []irwf.Issue, map[string]any, error) {
